@@ -265,7 +265,8 @@ def r16_2_3(ctx: Ctx):
                       'all five recording effects are found after the objective call',
                       f'recording effects not found after the objective call: {missing}',
                       key=f'R16.3::{drv.short}::missing::{",".join(missing)}')
-    ctx.floor(rid, 'regular iteration trips analysed', n, 1)
+    if not any(f.rule == 'R16.5' for f in ctx.findings):
+        ctx.floor(rid, 'regular iteration trips analysed', n, 1)
 
 
 def r16_4(ctx: Ctx):
@@ -316,12 +317,67 @@ def r16_4(ctx: Ctx):
             # the evaluation routine returns its argument: later names of the same item
             if er in cs and e.d.get('result') is not None:
                 pending[0].add(key_of(e.d['result']))
-    ctx.floor(rid, 'objective evaluations on paths of the iteration driver', n, 2)
+    if not any(f.rule == 'R16.5' for f in ctx.findings):
+        ctx.floor(rid, 'objective evaluations on paths of the iteration driver', n, 2)
     if not any(f.rule == rid for f in ctx.findings):
         ctx.ok(rid, drv.short, 'every trial is recorded before the next evaluation starts', drv.loc())
 
 
+def r16_5(ctx: Ctx):
+    """The objective is reached by plain calls only.  A routine of the evaluation chain handed as a *value* to an
+    iterator-consuming callable (map, filter, itertools, sorted/min/max key=...) runs inside the iterator protocol:
+    a StopIteration raised by the objective ends the iteration silently instead of reaching the handler of Solve."""
+    rid = 'R16.5'
+    ctx.rule(rid, 'no routine through which the global search reaches the objective is passed as a callable value '
+                  '(map / filter / key= ...): exceptions of the objective must propagate as exceptions')
+    roles = C.roles_of(ctx)
+    try:
+        tw, drv = roles.task_wrapper, roles.iter_driver
+    except RoleMissing as e:
+        ctx.fail(rid, f'role {e.role}', 'iOpt/', str(e), key=f'{rid}::role::{e.role}')
+        return
+    twq = roles.fq(tw)
+    chain = {q for q in roles.global_reach | {roles.fq(drv)} if q in ctx.ix.funcs and
+             (q == twq or twq in roles.reach(ctx.ix.funcs[q]))}
+    lst = roles.listener_methods()
+    n = 0
+    for q in sorted((roles.global_reach | {roles.fq(drv)}) - lst):
+        f = ctx.ix.funcs.get(q)
+        if f is None or f.kind != 'function':
+            continue
+        for call in ast.walk(f.node):
+            if not isinstance(call, ast.Call):
+                continue
+            for a in list(call.args) + [k.value for k in call.keywords]:
+                if not isinstance(a, (ast.Name, ast.Attribute, ast.Lambda)):
+                    continue
+                n += 1
+                targets = set()
+                if isinstance(a, ast.Lambda):
+                    for c in ast.walk(a.body):
+                        if isinstance(c, ast.Call):
+                            targets |= {roles.fq(x) for x in ctx.pta.internal_callees(f, c)}
+                else:
+                    for o in ctx.pta.expr_pts(f, a):
+                        if o.kind == 'bm':
+                            targets.add(roles.fq(o.extra[1]))
+                        elif o.kind == 'func':
+                            targets.add(roles.fq(o.extra[1]))
+                hit = sorted(targets & chain)
+                if hit:
+                    ctx.fail(rid, f.short, f.loc(call),
+                             f'{ast.unparse(a)[:50]} (a routine through which the objective is evaluated) is passed '
+                             f'as a callable to {ast.unparse(call.func)[:30]}(...): inside map/filter/key= the '
+                             f'objective runs under the iterator protocol, where a StopIteration it raises ends the '
+                             f'iteration silently - Solve neither stops nor reports the failure, and the unevaluated '
+                             f'item is recorded', key=f'{rid}::{f.short}::callable::{hit[0].split(":")[-1]}')
+    ctx.ok(rid, 'search path', f'{n} name/attribute/lambda arguments on the search path examined: none is a routine '
+                               f'of the evaluation chain', 'iOpt/method/')
+
+
 def check(ctx: Ctx):
+    if C.want(ctx, 'R16.5'):
+        r16_5(ctx)
     if C.want(ctx, 'R16.4'):
         r16_4(ctx)
     if C.want(ctx, 'R16.1'):
